@@ -34,6 +34,7 @@ func C02(c *run.Ctx) {
 			GrantTypes: []string{"authorization_code", "refresh_token"}, ResponseTypes: world.AllResponseTypes,
 			Scopes: []string{"openid", "offline", "fosite", "photos", "profile"}, Audience: []string{"https://api.example/c"}})
 		s := sim.New(w, c, "code-binding", "code-binding-error-class", "rightful-redeem-refused", "alive:expired", "payload", "failed-attempt-wrote-state", "code-twice")
+		s.CaseID = id
 		for k := r.Intn(6); k > 0; k-- {
 			randStep(s, r, defaultWeights)
 		}
